@@ -31,3 +31,5 @@ MUTANTS = [
 ]
 MUTANTS.append(dict(name="method-filter-swagger2-verbs-only", file='core/loader/operations/parser.py', expect="R7.8", old='                mu = method.upper()\n                if mu not in HTTPMethod.__members__:\n                    continue\n', new='                mu = method.upper()\n                if mu not in ("GET", "PUT", "POST", "DELETE", "OPTIONS", "HEAD", "PATCH"):\n                    continue\n'))
 MUTANTS.append(dict(name="clean-strategy-path-suffix-not-lowercased", file='core/utils.py', expect="R7.9", old='        normalized_path = re.sub(r"_+", "_", normalized_path).strip("_").lower()\n', new='        normalized_path = re.sub(r"_+", "_", normalized_path).strip("_")\n'))
+MUTANTS.append(dict(name='rendered-method-cached-by-operation-id', file='visit/endpoint/endpoint_visitor.py', expect='R7.10', old='        method_generator = EndpointMethodGenerator(schemas=self.schemas)\n        return method_generator.generate(op, context)\n', new='        if not hasattr(self, "_rendered"):\n            self._rendered = {}\n        if op.operation_id not in self._rendered:\n            method_generator = EndpointMethodGenerator(schemas=self.schemas)\n            self._rendered[op.operation_id] = method_generator.generate(op, context)\n        return self._rendered[op.operation_id]\n'))
+MUTANTS.append(dict(name='method-name-keeps-unicode-word-chars', file='core/utils.py', expect='R7.11', old='        name = re.sub(r"[^0-9a-zA-Z_]", "_", name)\n', new='        name = re.sub(r"[^\\w]", "_", name)\n'))
